@@ -75,7 +75,7 @@ def close(e, g):
 # defect had.
 L_FIXED = {"free-text-negation", "negation-over-sparse-field", "numeric-string-value-numeric-literal",
            "number-and-text-share-column", "int-value-decimal-literal", "by-field-sparse", "measure-field-sparse",
-           "measure-field-absent-from-dataset"}
+           "measure-field-absent-from-dataset", "pq-ingest-negated-term"}
 
 
 def cls_sig(kind, cls):
@@ -522,26 +522,24 @@ def compare(impl, model):
                 fails.append(("e2e/timechart/plain", "query %d: (bucket, got, expected) %s" % (qi, [(k, gr.get(k), er.get(k)) for k in keys if gr.get(k) != er.get(k)][:6])))
         elif kind == "tchart":
             # first-stage timechart: every matched event in exactly the cell [start + k·span, +span) that contains its
-            # timestamp.  Readings accepted for an event exactly ON the end bound when the bound lies on the grid: last
-            # cell closed (rows) or a cell of its own (rows2).  rowsdev = the answer under the recorded deviation (end bound
-            # off the grid): accepted as that known finding only when the answer is exactly it.
+            # timestamp; an event exactly ON the end bound belongs to the last cell of the grid (rows).  Other reading accepted
+            # when the bound lies on the grid: the end point opens a cell of its own (rows2).  (Repaired, patch c04-8: the
+            # engine used to report such an event in a cell starting at end − span, off the grid; that answer is no longer
+            # accepted under any name.)
             if int(mb.get("nmay", 0)) > 0:
                 continue
             aggs = [a for a in mb.get("aggs", "").split(",") if a]
             got = tc_cells(ia.get("rows", ""))
             split = any(k.endswith(":_") for k in got)
             if split:
-                # recorded deviation (e2e/timechart/null-series-split): the events lacking the by-field are reported as TWO
-                # series, "<nil>" and a nameless one.  The two are folded into one NULL series before the comparison
-                # (count/sum added, min/max combined; avg and dc of a cell where both hold events cannot be folded and are
-                # not compared); everything else must still be right, and the split itself is reported.
+                # repaired deviation (patch c04-9; e2e/timechart/null-series-split is no longer a known finding, so this is a
+                # VIOLATION): the events lacking the by-field are reported as TWO series, "<nil>" and a nameless one.  The
+                # two are put side by side as the halves of one NULL series (tc_val_ok) so that the rest of the answer is
+                # still compared; the split itself is reported.
                 got = tc_fold_null(got, aggs)
                 fails.append(("e2e/timechart/null-series-split", "query %d: the events lacking the by-field are reported as two series (\"<nil>\" and a series without a name) instead of one" % qi))
             d0 = tc_diff(tc_cells(mb.get("rows", "")), got, aggs)
             if not d0 or ("rows2" in mb and not tc_diff(tc_cells(mb["rows2"]), got, aggs)):
-                continue
-            if "rowsdev" in mb and not tc_diff(tc_cells(mb["rowsdev"]), got, aggs):
-                fails.append(("e2e/timechart/event-at-end-bound-off-grid", "query %d (span %s): an event exactly on the end bound of the range is reported in a cell starting at end − span, which is not a cell of the grid start + k·span: (cell:series, got, expected) %s" % (qi, mb.get("span"), d0[:4])))
                 continue
             fails.append((cls_sig("timechart", cls), "query %d (span %s): (cell:series, got, expected) %s" % (qi, mb.get("span"), [(c.split(":")[0] + ":" + (unhex(c.split(":")[1]) if c.split(":")[1] not in "-~" else c.split(":")[1]), g, e) for c, g, e in d0][:6])))
         elif kind == "stats":
